@@ -159,7 +159,8 @@ func c20(e *Env) {
 				okAll := true
 				for _, pc := range pieces {
 					s := pc.String()
-					if s != "val∈"+par {
+					// the input's values: ranged directly, or looked up with the input's own ranged key
+					if s != "val∈"+par && s != par+"[key∈"+par+"]" {
 						okAll = false
 						ob2.Fail(e.where(rt), "an element of the result is "+trunc(s, 140)+" instead of a value of the input map: looking records up through another key (e.g. their start time) loses those that share it and lists the survivor several times")
 					}
@@ -196,12 +197,29 @@ func c20(e *Env) {
 					continue
 				}
 				nm := c.Call.StaticCallee().String()
-				if nm != "sort.Slice" && nm != "sort.SliceStable" {
+				var cmp *ssa.Function
+				iIdx, jIdx := 0, 1
+				switch nm {
+				case "sort.Slice", "sort.SliceStable":
+					cmp = funcOf(c.Call.Args[1])
+				case "sort.Sort", "sort.Stable":
+					// the Less method of the sorted value's type
+					a := c.Call.Args[0]
+					if mi, ok := a.(*ssa.MakeInterface); ok {
+						a = mi.X
+					}
+					if sel := p.SSA.MethodSets.MethodSet(a.Type()).Lookup(cmdPkg.Pkg, "Less"); sel != nil {
+						cmp = p.SSA.MethodValue(sel)
+						iIdx, jIdx = 1, 2
+					} else if sel := p.SSA.MethodSets.MethodSet(a.Type()).Lookup(nil, "Less"); sel != nil {
+						cmp = p.SSA.MethodValue(sel)
+						iIdx, jIdx = 1, 2
+					}
+				default:
 					continue
 				}
-				cmp := funcOf(c.Call.Args[1])
-				if cmp == nil {
-					ob3.Unknown(e.where(c), "comparator is not a function literal")
+				if cmp == nil || len(cmp.Params) <= jIdx {
+					ob3.Unknown(e.where(c), "comparator is not a function literal or a Less method")
 					continue
 				}
 				found = true
@@ -222,7 +240,7 @@ func c20(e *Env) {
 					case "(time.Time).Before", "(time.Time).After":
 						a0 := csy.InCtx(cn.Ctx, cc.Call.Args[0]).String()
 						a1 := csy.InCtx(cn.Ctx, cc.Call.Args[1]).String()
-						iName, jName := "$"+cmp.Params[0].Name(), "$"+cmp.Params[1].Name()
+						iName, jName := "$"+cmp.Params[iIdx].Name(), "$"+cmp.Params[jIdx].Name()
 						first := strings.Contains(a0, "["+iName+"]") && strings.Contains(a1, "["+jName+"]")
 						second := strings.Contains(a0, "["+jName+"]") && strings.Contains(a1, "["+iName+"]")
 						isBefore := strings.HasSuffix(cc.Call.StaticCallee().String(), "Before")
